@@ -33,6 +33,12 @@ EXPR_CONTEXTS = [
     "switch (%s) { case 1 { } }", "switch (c) { case %s { } }", "x = 1 + %s;", "x = -%s;", "x = (%s);",
 ]
 
+PREFIXES = [
+    "function zz(a) { local q; q = a; return q; } ", "function zz() { return 1; } function yy(b) { return b; } ", "if (c) { x9 = 1; } else { x9 = 2; } ",
+    "foreach v9 in [1] { x9 = v9; } ", "x9 = c ? 1 : 2; ", "switch (c) { case 1 { x9 = 1; } default { x9 = 2; } } ", "while (false) { x9 = 1; } ",
+    "function zz(a) { function inner() { local w; return 1; } return a; } ", "x9 = [1, {\"k\": (2)}][0]; ",
+]
+
 class C13(Prop):
     id = "C13"
     compare_run = True
@@ -43,7 +49,8 @@ class C13(Prop):
             "x enclosing contexts (top level, if/else/else-if/while/for/foreach/function/switch-arm bodies; ternary arms, call arguments, "
             "array and hash elements, index expressions, loop heads, case labels) at nesting depth 1-3, plus every token-boundary truncation "
             "of valid corpus scripts that leaves a bracket open: Prepare must return an error; the same contexts with valid fragments must "
-            "be accepted. Expectations come from the generator. non-trivial = fragment nested in at least one construct")
+            "be accepted; every invalid case is repeated after (and between) complete valid constructs - function definitions, loops, "
+            "switches, ternaries - so that parser state left behind by earlier constructs is exercised. Expectations come from the generator. non-trivial = fragment nested in at least one construct")
 
     def cases(self, rng, tier):
         out = []
@@ -70,6 +77,12 @@ class C13(Prop):
                             c2 = "if (c) { %s }"
                         src = c2 % src
                     out.append(case(src, False, "invalid-stmt", nontrivial=(ctx != "%s" or d > 1)))
+                    # the same after complete, valid constructs (state left behind by what was parsed before)
+                    pres = PREFIXES if frag.startswith("local") else [rng.choice(PREFIXES)]
+                    for pre in pres:
+                        out.append(case(pre + src, False, "invalid-stmt-after-valid"))
+                        if rng.random() < 0.3:
+                            out.append(case(pre + src + " " + rng.choice(PREFIXES), False, "invalid-stmt-between-valid"))
         for frag in INVALID_EXPR:
             for ctx in EXPR_CONTEXTS:
                 for d in depths:
@@ -77,6 +90,7 @@ class C13(Prop):
                     for _ in range(d - 1):
                         src = rng.choice(STMT_CONTEXTS[2:]) % src
                     out.append(case(src, False, "invalid-expr"))
+                    out.append(case(rng.choice(PREFIXES) + src, False, "invalid-expr-after-valid"))
         for frag in VALID_STMT:
             for ctx in STMT_CONTEXTS:
                 src = ctx % frag
